@@ -103,6 +103,8 @@ type linAn struct {
 	stored map[string]bool // field names the function stores to (their lengths are not stable)
 	inLen  map[ssa.Value]bool
 	storesTo map[string][]ssa.Instruction
+	callMemo map[*ssa.Call][]lin
+	callBusy map[*ssa.Call]bool
 	reachMemo map[*ssa.BasicBlock]map[*ssa.BasicBlock]bool
 }
 
@@ -501,6 +503,47 @@ func (a *linAn) factsAt(bb *ssa.BasicBlock) []lin {
 			}
 		}
 	}
+	// results of the library's own small int helpers (index normalisation and the like): facts that
+	// hold at every successful return of the helper, given what is known at the call
+	for _, x := range a.fn.Blocks {
+		for _, ins := range x.Instrs {
+			call, ok := ins.(*ssa.Call)
+			if !ok {
+				continue
+			}
+			h := call.Call.StaticCallee()
+			if h == nil || h.Blocks == nil || h.Pkg != a.fn.Pkg || h == a.fn {
+				continue
+			}
+			res := h.Signature.Results()
+			if res.Len() == 0 || res.Len() > 2 {
+				continue
+			}
+			if bt, ok := res.At(0).Type().Underlying().(*types.Basic); !ok || bt.Kind() != types.Int {
+				continue
+			}
+			holds := false
+			if res.Len() == 2 {
+				if !isErrorType(res.At(1).Type()) {
+					continue
+				}
+				for _, e := range extractOf(call, 1) {
+					for _, t := range errChecks(e) {
+						if edgeDominates(t.Blk, 1-t.NonNilSucc, bb) {
+							holds = true
+						}
+					}
+				}
+			} else if x != bb && x.Dominates(bb) {
+				holds = true
+			} else if x == bb {
+				holds = true // facts about a value are only used where the value is
+			}
+			if holds {
+				f.ge = append(f.ge, a.callFacts(call)...)
+			}
+		}
+	}
 	// strengthen with disequalities: x != y and y - x >= 0  =>  y - x - 1 >= 0
 	for round := 0; round < 2; round++ {
 		for _, nq := range f.neq {
@@ -635,16 +678,12 @@ func (a *linAn) describeBase(v ssa.Value) string {
 
 // reviewed exceptions: function + collection role -> the invariant relied upon
 var boundsExceptions = map[string]string{
-	"v5|(*lazyNode).nextByte|":               "content-dependent: the raw message is decoder-delimited or gate-validated JSON text, hence non-empty and containing a non-space byte (R-GATE + R-RAW)",
-	"v5|(*lazyNode).equal|result of":         "content-dependent: compact() of a valid JSON value is non-empty (R-GATE, codec contract)",
 	"(*lazyNode).equal|o.ary.nodes":       "the two lengths are compared immediately before the loop (len(n.ary.nodes) != len(o.ary.nodes) returns false); the loop body only parses descendants of the two trees, never their element slices",
-	"v5|(Patch).add|":                        "content-dependent: op.value().raw is a decoder-delimited JSON value, hence non-empty (R-GATE + R-DISPATCH: add requires value)",
 	"(*partialDoc).remove|d.keys":         "relies on R-KEYS: the key was found in obj (comma-ok) so the scan of keys finds its index (set(keys) = dom(obj))",
 	"(*partialArray).set|d.nodes":         "relies on R-REPLACE: every set on an array is dominated by a successful get of the same container and key, which bounds the index from above",
 	"createArrayMergePatch|local:":        "the decoder fills both local slices; their lengths are compared (len(modifiedDocs) != total returns an error) before the pairwise walk",
 	"createArrayMergePatch|originalDocs":  "the decoder fills both local slices; their lengths are compared (len(modifiedDocs) != total returns an error) before the pairwise walk",
 	"createArrayMergePatch|modifiedDocs":  "the decoder fills both local slices; their lengths are compared (len(modifiedDocs) != total returns an error) before the pairwise walk",
-	"v5|(*lazyNode).isNull|":                 "content-dependent (compact of valid JSON is non-empty)",
 	"legacy|(*partialArray).set|":         "relies on R-REPLACE (legacy): set is preceded by a successful get",
 }
 
@@ -754,6 +793,30 @@ func ruleBounds(c *Ctx) {
 						bd = a.describeBase(base)
 					}
 					reason := ""
+					// structural, v5 only: the text of a node (and its compacted form) is validated JSON —
+					// gate-checked input, a decoder-delimited value, or encoder output that passed the
+					// gate (R-GATE, R-RAW) — hence not empty and not all whitespace. Reading its first
+					// byte, or stepping over leading whitespace byte by byte, stays inside it.
+					firstOnly := false
+					switch y := ins.(type) {
+					case *ssa.IndexAddr:
+						if k, ok := intConst(y.Index); ok && k == 0 {
+							firstOnly = true
+						}
+					case *ssa.Index:
+						if k, ok := intConst(y.Index); ok && k == 0 {
+							firstOnly = true
+						}
+					case *ssa.Slice:
+						if y.High == nil && y.Low != nil {
+							if k, ok := intConst(y.Low); ok && k <= 1 {
+								firstOnly = true
+							}
+						}
+					}
+					if b.Name == "v5" && firstOnly && base != nil && b.nodeTextDerived(base, 0) {
+						reason = "content-dependent: the indexed bytes are the text of a node (or its compacted form): validated JSON text, hence non-empty and containing a non-space byte (R-GATE + R-RAW decide that only such text becomes a node's raw message)"
+					}
 					for k, r := range boundsExceptions {
 						parts := strings.SplitN(k, "|", 3)
 						if len(parts) == 3 {
@@ -851,6 +914,15 @@ func ruleNegIdx(c *Ctx) {
 				}
 			}
 			if negBlk == nil {
+				// the normalisation may live in a helper that receives the parsed index
+				if ok, why, pos := b.negIdxThroughHelper(fn, idx); why != "" {
+					v := Discharged
+					if !ok {
+						v = Violated
+					}
+					l.add("R-NEGIDX", b.Name, key, pos, v, why, true)
+					continue
+				}
 				// no negative branch at all: then negative indices must be rejected by the range proof (R-BOUNDS)
 				l.add("R-NEGIDX", b.Name, key, b.rel(fn.Pos()), Violated, "no `index < 0` branch: negative indices are not treated separately (they are either always accepted or left to the bounds check)", true)
 				continue
@@ -1129,4 +1201,359 @@ func (b *Body) addRangeObligation(l *Ledger) {
 	} else {
 		l.add("R-NEGIDX", b.Name, key, b.rel(fn.Pos()), Discharged, fmt.Sprintf("%d successful return(s) after the index parse, each with len(array) - index >= 0 entailed by the dominating comparisons", n), true)
 	}
+}
+
+
+// nodeTextDerived: v is (a conversion, slice or phi of) the bytes a lazyNode's
+// raw message points to, or the result of the compact role applied to a node.
+func (b *Body) nodeTextDerived(v ssa.Value, depth int) bool {
+	return b.nodeTextDerived1(v, depth, map[ssa.Value]bool{})
+}
+
+func (b *Body) nodeTextDerived1(v ssa.Value, depth int, onPath map[ssa.Value]bool) bool {
+	if depth > 12 || v == nil {
+		return false
+	}
+	if onPath[v] {
+		return true // a loop-carried value: decided by its other definitions
+	}
+	onPath[v] = true
+	defer delete(onPath, v)
+	switch x := v.(type) {
+	case *ssa.Convert:
+		return b.nodeTextDerived1(x.X, depth+1, onPath)
+	case *ssa.ChangeType:
+		return b.nodeTextDerived1(x.X, depth+1, onPath)
+	case *ssa.Slice:
+		return b.nodeTextDerived1(x.X, depth+1, onPath)
+	case *ssa.Phi:
+		for _, e := range x.Edges {
+			if e == ssa.Value(x) {
+				continue
+			}
+			if !b.nodeTextDerived1(e, depth+1, onPath) {
+				return false
+			}
+		}
+		return len(x.Edges) > 0
+	case *ssa.UnOp:
+		if x.Op != token.MUL {
+			return false
+		}
+		// *(<node>.raw)
+		if _, fr, ok := fieldLoad(x.X); ok && fr.Field == "raw" && fr.Type == "lazyNode" {
+			return true
+		}
+		// a local holding it
+		if al, ok := x.X.(*ssa.Alloc); ok {
+			n := 0
+			for _, r := range *al.Referrers() {
+				if st, ok := r.(*ssa.Store); ok && st.Addr == ssa.Value(al) {
+					n++
+					if !b.nodeTextDerived1(st.Val, depth+1, onPath) {
+						return false
+					}
+				}
+			}
+			return n > 0
+		}
+	case *ssa.Call:
+		f := x.Call.StaticCallee()
+		if f == nil || f.Signature.Recv() == nil || !isPtrToNamed(f.Signature.Recv().Type(), "lazyNode") || b.Codec == nil {
+			return false
+		}
+		calls := false
+		allInstrs(f, func(i ssa.Instruction) {
+			if ci, ok := i.(ssa.CallInstruction); ok {
+				if g := ci.Common().StaticCallee(); g != nil && g.Pkg == b.Codec && g.Name() == "Compact" {
+					calls = true
+				}
+			}
+		})
+		return calls
+	}
+	return false
+}
+
+
+// substitute replaces the helper's parameter symbols by the caller's argument forms.
+func linSubst(l lin, m map[string]lin) (lin, bool) {
+	out := linConst(l.c)
+	for k, v := range l.co {
+		if r, ok := m[k]; ok {
+			out = out.add(r, v)
+			continue
+		}
+		if strings.HasPrefix(k, "L:") || strings.HasPrefix(k, "v:") {
+			// a symbol private to the helper: not expressible at the call site
+			return lin{}, false
+		}
+		out = out.add(linSym(k), v)
+	}
+	return out, true
+}
+
+// callFacts: facts about the int result of a call of a library helper that hold at every
+// successful return of the helper, given the facts known at the call site. Candidates:
+// r >= 0, r <= / < each length symbol and int argument known at the call, r >= int argument.
+func (a *linAn) callFacts(call *ssa.Call) []lin {
+	if a.callMemo == nil {
+		a.callMemo = map[*ssa.Call][]lin{}
+		a.callBusy = map[*ssa.Call]bool{}
+	}
+	if fs, ok := a.callMemo[call]; ok {
+		return fs
+	}
+	if a.callBusy[call] {
+		return nil
+	}
+	a.callBusy[call] = true
+	defer func() { a.callBusy[call] = false }()
+	h := call.Call.StaticCallee()
+	var r ssa.Value = call
+	if h.Signature.Results().Len() == 2 {
+		r = nil
+		for _, e := range extractOf(call, 0) {
+			r = e
+		}
+		if r == nil {
+			a.callMemo[call] = nil
+			return nil
+		}
+	}
+	caller := a.factsAt(call.Block())
+	hA := newLinAn(a.b, h)
+	subst := map[string]lin{}
+	var argLins []lin
+	for i, p := range h.Params {
+		if i >= len(call.Call.Args) {
+			break
+		}
+		if bt, ok := p.Type().Underlying().(*types.Basic); ok && bt.Info()&types.IsInteger != 0 {
+			al := a.expr(call.Call.Args[i])
+			subst[hA.expr(p).String()] = al
+			// hA.expr(p) is a single symbol v:<name>
+			for k := range hA.expr(p).co {
+				subst[k] = al
+			}
+			argLins = append(argLins, al)
+		} else if _, isSl := p.Type().Underlying().(*types.Slice); isSl {
+			if ll, ok := hA.lenOf(p); ok {
+				if cl, ok2 := a.lenOfX(call.Call.Args[i]); ok2 {
+					for k := range ll.co {
+						subst[k] = cl
+					}
+				}
+			}
+		}
+	}
+	type retInfo struct {
+		facts []lin
+		val   lin
+	}
+	var rets []retInfo
+	ei := errResultIndex(h)
+	for _, ret := range liveReturns(h) {
+		if ei >= 0 && a.b.definitelyNonNilErr(retVal(ret, ei), ret.Block(), 0) {
+			continue
+		}
+		v, ok := linSubst(hA.expr(retVal(ret, 0)), subst)
+		if !ok {
+			a.callMemo[call] = nil
+			return nil
+		}
+		var fs []lin
+		for _, f := range hA.phiFacts(ret.Block(), hA.factsAt(ret.Block())) {
+			if g, ok := linSubst(f, subst); ok {
+				fs = append(fs, g)
+			}
+		}
+		rets = append(rets, retInfo{append(fs, caller...), v})
+	}
+	if len(rets) == 0 {
+		a.callMemo[call] = nil
+		return nil
+	}
+	rl := a.expr(r)
+	// candidate upper bounds: length symbols and int arguments visible at the call
+	var uppers []lin
+	seen := map[string]bool{}
+	addU := func(l lin) {
+		if !seen[l.String()] {
+			seen[l.String()] = true
+			uppers = append(uppers, l)
+		}
+	}
+	for _, f := range caller {
+		for k := range f.co {
+			if strings.HasPrefix(k, "L:") {
+				addU(linSym(k))
+			}
+		}
+	}
+	for _, al := range argLins {
+		addU(al)
+		for k := range al.co {
+			if strings.HasPrefix(k, "L:") {
+				addU(linSym(k))
+			}
+		}
+	}
+	var out []lin
+	try := func(mk func(val lin) lin) {
+		for _, ri := range rets {
+			if !linEntails(ri.facts, mk(ri.val)) {
+				return
+			}
+		}
+		out = append(out, mk(rl))
+	}
+	try(func(v lin) lin { return v }) // r >= 0
+	for _, u := range uppers {
+		u := u
+		try(func(v lin) lin { return u.add(v, -1) })                         // u - r >= 0
+		try(func(v lin) lin { return u.add(v, -1).add(linConst(1), -1) })     // u - r - 1 >= 0
+		try(func(v lin) lin { return v.add(u, -1) })                         // r - u >= 0
+		try(func(v lin) lin { return u.add(v, -1).add(linConst(1), 1) })      // u - r + 1 >= 0
+	}
+	a.callMemo[call] = out
+	return out
+}
+
+
+// negIdxThroughHelper: the parsed index is handed to a helper of the library
+// that holds the `index < 0` branch. Inside the helper: on the negative edge
+// the option is tested, and no successful (nil error) return is reachable from
+// the negative edge except through the option's true edge. In the caller: the
+// helper's error is tested and returned before any element is touched.
+// why == "" means no such helper was found.
+func (b *Body) negIdxThroughHelper(fn *ssa.Function, idx ssa.Value) (bool, string, string) {
+	for _, r := range *idx.Referrers() {
+		call, ok := r.(*ssa.Call)
+		if !ok {
+			continue
+		}
+		h := call.Call.StaticCallee()
+		if h == nil || h.Blocks == nil || h.Pkg != fn.Pkg {
+			continue
+		}
+		pi := -1
+		for i, a := range call.Call.Args {
+			if a == idx {
+				pi = i
+			}
+		}
+		if pi < 0 || pi >= len(h.Params) || errResultIndex(h) < 0 {
+			continue
+		}
+		p := ssa.Value(h.Params[pi])
+		var negBlk *ssa.BasicBlock
+		negSucc := -1
+		for _, bb := range h.Blocks {
+			iff, ok := bb.Instrs[len(bb.Instrs)-1].(*ssa.If)
+			if !ok {
+				continue
+			}
+			big, small, strict, ok := cmpNorm(iff.Cond)
+			if !ok {
+				continue
+			}
+			if z, isZ := intConst(big); isZ && z == 0 && small == p && strict {
+				negBlk, negSucc = bb, 0
+			}
+			if z, isZ := intConst(small); isZ && z == 0 && big == p && !strict {
+				negBlk, negSucc = bb, 1
+			}
+		}
+		if negBlk == nil {
+			continue
+		}
+		pos := b.posOf(call)
+		var optBlk *ssa.BasicBlock
+		optTrue := -1
+		for _, bb := range h.Blocks {
+			if !edgeDominates(negBlk, negSucc, bb) && bb != negBlk.Succs[negSucc] {
+				continue
+			}
+			iff, ok := bb.Instrs[len(bb.Instrs)-1].(*ssa.If)
+			if !ok {
+				continue
+			}
+			cv, neg := stripNot(iff.Cond)
+			isOpt := false
+			if _, fr, ok := fieldLoad(cv); ok && fr.Field == "SupportNegativeIndices" {
+				isOpt = true
+			}
+			if g := loadedGlobal(cv); g != nil && g.Name() == "SupportNegativeIndices" {
+				isOpt = true
+			}
+			if isOpt {
+				optBlk = bb
+				optTrue = 0
+				if neg {
+					optTrue = 1
+				}
+			}
+		}
+		if optBlk == nil {
+			return false, "the helper " + fname(h) + " normalises a negative index without consulting SupportNegativeIndices", pos
+		}
+		if !b.rejects(optBlk.Succs[1-optTrue]) {
+			return false, "in " + fname(h) + ", with the option off a negative index does not lead to an error return", pos
+		}
+		ei := errResultIndex(h)
+		bad := ""
+		seen := map[*ssa.BasicBlock]bool{}
+		var walk func(bb *ssa.BasicBlock)
+		walk = func(bb *ssa.BasicBlock) {
+			if seen[bb] || bad != "" {
+				return
+			}
+			seen[bb] = true
+			if ret, ok := bb.Instrs[len(bb.Instrs)-1].(*ssa.Return); ok {
+				if !b.definitelyNonNilErr(retVal(ret, ei), bb, 0) {
+					bad = "in " + fname(h) + " a successful return at " + b.posOf(ret) + " is reachable from the index < 0 edge without passing the option's true edge"
+				}
+			}
+			for si, sx := range bb.Succs {
+				if bb == optBlk && si == optTrue {
+					continue
+				}
+				walk(sx)
+			}
+		}
+		walk(negBlk.Succs[negSucc])
+		if bad != "" {
+			return false, bad, pos
+		}
+		// caller: the helper's error stops the method before any element is touched
+		okCaller := true
+		allInstrs(fn, func(i ssa.Instruction) {
+			touch := false
+			switch x := i.(type) {
+			case *ssa.IndexAddr:
+				if _, fr, ok := fieldLoad(x.X); ok && fr.Field == "nodes" {
+					touch = true
+				}
+				if u, ok := x.X.(*ssa.UnOp); ok && u.X == ssa.Value(fn.Params[0]) {
+					touch = true
+				}
+			case *ssa.Slice:
+				if _, fr, ok := fieldLoad(x.X); ok && fr.Field == "nodes" {
+					touch = true
+				}
+			}
+			if !touch || !reachableAfter(b, call)[i] {
+				return
+			}
+			if ok, _ := b.successDominates(call, i); !ok {
+				okCaller = false
+			}
+		})
+		if !okCaller {
+			return false, "the error of " + fname(h) + " is not tested before the elements are touched", pos
+		}
+		return true, "through " + fname(h) + ": index < 0 → option tested; option off → non-nil error; no successful return from the negative edge except through the option's true edge; the caller stops on the helper's error before touching an element", pos
+	}
+	return false, "", ""
 }
